@@ -47,6 +47,9 @@
    Pinned beyond the property statement (a mismatch on these is drift, not a violation):
      * who is unauthorized: another OPEN writer on that channel with a strictly higher
        authority (C05's rule; equal authorities are not used);
+     * a writer that writes a group's index channel and is not authorized on it streams none of
+       the group's data channels either, even those it holds (idxWriter.write); Write's
+       `authorized` result is false iff some series was excluded (RelayTrace);
      * the moment a re-subscription takes effect (at the streamer goroutine's select, never
        for a frame it already holds) and that a cancelled streamer may lose the frame it holds;
      * a streamer's state names Init/Connecting/Running/Disconnecting/Draining/Closed.
@@ -73,7 +76,8 @@ CONSTANTS Writers, Streamers, Keys,
           AllowOrphan,    \* DBClose allowed while streamers are still open
           Window_CloseWithOpenWriters, \* DBClose allowed while writers are still open
           WKeys,          \* [Writers -> SUBSET Keys]  channels of each writer's frames
-          Auth,           \* [Writers -> [Keys -> Nat]]
+          Auth,           \* [Writers -> [Keys -> Nat]]: authority per channel
+          Idx,            \* [Keys -> Keys \cup {"none"}]: the index channel of a data channel
           OpenSubs,       \* subscriptions the environment may open a streamer with
           Subs,           \* subscriptions the environment may re-subscribe to
           CloseModes,     \* subset of {"graceful", "cancel"}
@@ -166,11 +170,18 @@ WriteCall(w) ==
   /\ wnext' = [wnext EXCEPT ![w] = @ + 1]
   /\ UNCHANGED <<wstate, gates, wdone, wyes, dvars, svars, dbClosed, gvars>>
 
-\* streamWriter.write, first half: one channel of the head request is checked against the gates
+\* streamWriter.write, first half: one channel of the head request is checked against the gates.
+\* idxWriter.write: the index channel of a group is asked first (pass 1); if the writer writes the
+\* index and is not authorized on it, every data channel of the group is held back as well
+\* ("losing control of the index means there is no position to express these samples against").
+\* A writer that does not write the index (data channel only) is judged on the data channel alone.
+Grouped(w, k) == Idx[k] # "none" /\ Idx[k] \in WKeys[w]
 WriterDecide(w, k) ==
   /\ wq[w] # <<>> /\ k \in Head(wq[w]).ks \ wdone[w]
+  /\ Grouped(w, k) => Idx[k] \in wdone[w]
   /\ wdone' = [wdone EXCEPT ![w] = @ \cup {k}]
-  /\ wyes' = [wyes EXCEPT ![w] = IF Unauthorized(w, k) THEN @ ELSE @ \cup {k}]
+  /\ wyes' = [wyes EXCEPT ![w] =
+        IF Unauthorized(w, k) \/ (Grouped(w, k) /\ Idx[k] \notin wyes[w]) THEN @ ELSE @ \cup {k}]
   /\ UNCHANGED <<wstate, gates, wnext, wq, dvars, svars, dbClosed, gvars>>
 
 \* second half: the frame minus the excluded series is sent (blocks while the inlet is full)
